@@ -571,10 +571,14 @@ func stepPos(id int) string {
 
 var monitorOps = []string{"WriteTo", "String", "Dump", "WellFormed", "accessors"}
 
-func c13Monitor(t byte, vec gen.Vec, op string, gateOK bool) (*core.Finding, int64) {
+func c13Monitor(t byte, vec gen.Vec, op string, gateOK, zero bool) (*core.Finding, int64) {
 	resetGlobals()
 	p := gen.Schemas[t].Make(vec)
+	// zero: the packet is the zero value &T{} filled through the setters,
+	// not the value of its New function
+	bind.FromZero = zero
 	q, err, res := buildGuarded(p)
+	bind.FromZero = false
 	if err != nil || res.Panic != "" {
 		return nil, 0
 	}
@@ -587,7 +591,9 @@ func c13Monitor(t byte, vec gen.Vec, op string, gateOK bool) (*core.Finding, int
 		return nil, steps
 	}
 	desc := gen.Schemas[t].Describe(vec)
-	// explain
+	if zero {
+		desc = "zero value &" + bind.TypeNames[t] + "{} filled through the setters: " + desc
+	}
 	return &core.Finding{Class: "shared-write/" + op + "/" + gen.Schemas[t].Name, Sig: map[string]string{"op": op, "type": gen.Schemas[t].Name},
 		Detail: fmt.Sprintf("%s: %s writes shared state (packet graph or package-level variable), first seen %s; two goroutines running it on the same packet race", desc, op, at)}, steps
 }
@@ -639,17 +645,23 @@ func runC13(x *core.Ctx) {
 			if x.Expired() {
 				return
 			}
-			for _, op := range monitorOps {
-				f, steps := c13Monitor(ty, v, op, gateOK)
-				x.Eval("monitor." + op)
-				x.R.States += steps
-				x.R.Transitions += steps
-				x.Distinct(core.HashInts(op+string([]byte{ty}), v))
-				if f != nil {
-					op, v := op, v
-					x.Report(f, func() core.Case {
-						return core.Case{Harness: "c13.monitor", Params: map[string]any{"type": int(ty), "vec": []int(v), "op": op}}
-					}, func() *core.Finding { g, _ := c13Monitor(ty, v, op, true); return g })
+			for _, zero := range []bool{false, true} {
+				for _, op := range monitorOps {
+					f, steps := c13Monitor(ty, v, op, gateOK, zero)
+					stratum := "monitor."
+					if zero {
+						stratum = "monitor.zero-value."
+					}
+					x.Eval(stratum + op)
+					x.R.States += steps
+					x.R.Transitions += steps
+					x.Distinct(core.HashInts(op+string([]byte{ty})+fmt.Sprint(zero), v))
+					if f != nil {
+						op, v, zero := op, v, zero
+						x.Report(f, func() core.Case {
+							return core.Case{Harness: "c13.monitor", Params: map[string]any{"type": int(ty), "vec": []int(v), "op": op, "zero": zero}}
+						}, func() *core.Finding { g, _ := c13Monitor(ty, v, op, true, zero); return g })
+					}
 				}
 			}
 		}
@@ -828,7 +840,8 @@ func runC13(x *core.Ctx) {
 func replayC13(c core.Case) *core.Finding {
 	switch c.Harness {
 	case "c13.monitor":
-		f, _ := c13Monitor(byte(paramInt(c.Params, "type")), vecParam(c), paramStr(c.Params, "op"), true)
+		zero, _ := c.Params["zero"].(bool)
+		f, _ := c13Monitor(byte(paramInt(c.Params, "type")), vecParam(c), paramStr(c.Params, "op"), true, zero)
 		return f
 	case "c13.schedule":
 		name := paramStr(c.Params, "scenario")
